@@ -255,7 +255,9 @@ Check (eq_refl : item_key = fun it => (it_w it, it_seq it)).
 Check (eq_refl : after_interrupt = fun e => match e with
   | EClient => Close | EAsyncClient => Close | EWsClient => Close
   | EServer => Close | EAsyncServer => Close | EWsServer => Close end).
-Print subseq.
+Check (@sub_nil : forall A (l : list A), subseq [] l).
+Check (@sub_skip : forall A (a : list A) x l, subseq a l -> subseq a (x :: l)).
+Check (@sub_take : forall A (a : list A) x l, subseq a l -> subseq (x :: a) (x :: l)).
 
 Print Assumptions C05_no_interleave.
 Print Assumptions C05_wire_bytes.
